@@ -72,7 +72,13 @@ def _run(level, cfg, events, var, perm):
                                  wall=var.get("wall", "jump"), atimeout=var.get("atimeout", False),
                                  loop=var.get("loop", False), flavours=var.get("flavours"),
                                  entry2=var.get("entry2"), sinks=var.get("sinks"),
-                                 nosleeper=var.get("nosleeper", False))
+                                 nosleeper=var.get("nosleeper", False), hang=var.get("hang"))
+    if var.get("hang") and not var["entry"].startswith(("Async", "async")) and obs != events:
+        # the sync runner waits for its worker thread in real time: before a difference is
+        # believed, the run is repeated with a timeout no scheduling hiccup can reach
+        obs = retryenv.run_scenario(cfg, events, entry=var["entry"], perm=perm,
+                                     place=var.get("place", "call"), flavours=var.get("flavours"),
+                                     hang=2.0)
     # the decorator and the Policy wrappers go through Policy.call, which classifies the raised
     # exception once more
     wrapped = var.get("entry2") or var["entry"].split(".")[0] in ("Policy", "AsyncPolicy", "RetryPolicy",
@@ -363,7 +369,22 @@ for _p in ("C01", "C02", "C03", "C04", "C05", "C10", "C11", "C13", "C14", "C16")
                                                   (FOUR + DECORATED if _p == "C14" else FOUR))))),
             n_random={"quick": 1500, "thorough": 30000},
             exports_extra={"C10": ["RetryMC_C10y.cfg"], "C05": ["RetryMC_C05y.cfg"],
-                           "C16": ["RetryMC_C16y.cfg"]}.get(_p, []))
+                           "C16": ["RetryMC_C16y.cfg"], "C02": ["RetryMC_HANGx.cfg"],
+                           "C04": ["RetryMC_HANGx.cfg"], "C11": ["RetryMC_HANGx.cfg"],
+                           "C13": ["RetryMC_HANGx.cfg"]}.get(_p, []))
+
+
+def hang_variants(tier: str) -> list[dict]:
+    """entry points for the behaviours in which attempt timeouts fire ("hang" outcomes of M).  The
+    async runner's timeout is ATimeout ticks of the virtual clock its event loop reads (no real
+    waiting); the sync runner waits for its worker thread in real time, hence the sampling."""
+    at = 2 * retryenv.vtime.TICK
+    k = 1 if tier == "quick" else 5
+    return [{"entry": "AsyncRetry", "loop": True, "hang": at, "async_callbacks": True},
+            {"entry": "AsyncPolicy", "loop": True, "hang": at, "place": "both", "every": 2},
+            {"entry": "AsyncRetryPolicy", "loop": True, "hang": at, "place": "ctor", "every": 3, "permute": True},
+            {"entry": "Retry", "hang": 0.2, "place": "ctor", "every": 40 // k},
+            {"entry": "Policy", "hang": 0.2, "place": "call", "every": 95 // k}]
 
 
 def export_behaviours(cfgfile: str, tag: str, module: str = "RetryMC.tla"):
@@ -437,6 +458,8 @@ def check(prop: str, tier: str) -> Report:
     for xcfg in pf.get("exports_extra", []):
         xconfigs, xbehs, xres = export_behaviours(pick_cfg(xcfg[:-4], tier), f"{prop}-exp2")
         xvars = variants
+        if xcfg == "RetryMC_HANGx.cfg":
+            xvars = hang_variants(tier)
         if xcfg == "RetryMC_C16y.cfg":
             xvars = [{"entry": "Retry", "place": "ctor", "nosleeper": True},
                      {"entry": "Policy", "place": "call", "nosleeper": True},
